@@ -87,8 +87,20 @@ ProceedFails(s, e) ==
 BodyLeftAfter(s, e) == IF s.bleft >= 0 /\ e.res = "ok" THEN s.bleft - e.c ELSE s.bleft
 SbWriteFails(s, e) ==
   IF "inl" \notin DOMAIN e \/ s.bleft = -2 THEN {} ELSE
-  FClause("C09", "the request body was sent completely and its end signalled, but the flow does not become ready to advance",
-          (e.res = "ok" /\ e.inl = 0 /\ (IF s.bleft >= 0 THEN BodyLeftAfter(s, e) = 0 ELSE e.outl >= 5)) => e.ready)
+       FClause("C09", "the request body was sent completely and its end signalled, but the flow does not become ready to advance",
+               (e.res = "ok" /\ e.inl = 0 /\ (IF s.bleft >= 0 THEN BodyLeftAfter(s, e) = 0 ELSE e.outl >= 5)) => e.ready)
+  \cup FClause("C09", "the body is not sent in the framing the request declares (on the request object or in the prepare state)",
+               ("chunked" \in DOMAIN e /\ s.framing # "unknown") => (e.chunked = (s.bleft = -1)))
+  \cup FClause("C09", "ready to advance although declared body bytes are still to be sent",
+               (s.bleft >= 0 /\ BodyLeftAfter(s, e) > 0) => ~e.ready)
+
+\* consume_direct_write(): e = [amt, res, ready]; the bytes count as sent
+SbDirectFails(s, e) ==
+  IF s.bleft < 0 THEN {} ELSE
+       FClause("C09", "a direct write within the declared length was refused", e.amt <= s.bleft => e.res = "ok")
+  \cup FClause("C09", "ready to advance although declared body bytes are still to be sent",
+               (e.res = "ok" /\ s.bleft - e.amt > 0) => ~e.ready)
+SbDirectUpd(s, e) == [s EXCEPT !.ready = e.ready, !.bleft = IF s.bleft >= 0 /\ e.res = "ok" THEN @ - e.amt ELSE @]
 
 \* the readiness the specification expects in the state entered by a successful proceed
 ReadyOnEntry(s, next) ==
